@@ -81,6 +81,10 @@ CHECKS = {
          "other",
          "Decides for all alias tables and references: an alias replaces exactly the whole first segment, once, independent of map order; every reference is normalised before it reaches the table and the current package never reaches it; one decorated path maps to one name and different paths to different names (counter), which is always an identifier; all groups of a reference reach the compiled expression. Which package a symbol finally comes from needs the user's module and is not decided. D12 (alias named like a template import) is a recorded finding.",
          "DESIGN.md §4 C14"),
+ "C03": ("verb/argument discipline of every code-producing fmt.Sprintf on SSA (quoted, exported, grammar-safe capture group, or the one documented raw position), template raw-data print lint, accepted-language classes of token factories and resolvers read from their Supports with containment decided by automata, SSA case analysis of Tokens.GoCode, structural contracts of the generated helper methods on the type-checked instantiation",
+         "other",
+         "The chunker as a string algorithm and run-time evaluation are out of reach. Decided for all strings: user text enters generated code only quoted/exported (so the literal denotes the original string) or through a grammar that admits no quote/space; the token and argument grammars equal the documentation; no factory or resolver is shadowed, catch-alls are last, functions are prepended; one token keeps its type, several are concatenated in order, none is an error; references emitted = recorded; built-ins are registered first and their helpers have the documented calls, signatures, default rule and error discipline.",
+         "DESIGN.md §4 C03"),
 }
 NOT_YET = "check not built yet in this session (design in DESIGN.md §4); will be claimed once its rules run on /repo"
 
